@@ -79,7 +79,7 @@ pub async fn build(e: &E) -> Result<Box<dyn OperationTrait>> {
 
 // ---------------- model-side text of an expression ----------------
 fn geo_boxes(g: &[f64; 4]) -> Result<Vec<TileBBox>> {
-	(0..=ZMAX).map(|z| TileBBox::from_geo(z, &GeoBBox(g[0], g[1], g[2], g[3]))).collect()
+	(0..=31u8).map(|z| TileBBox::from_geo(z, &GeoBBox(g[0], g[1], g[2], g[3]))).collect()
 }
 pub fn expr_tokens(e: &E) -> Result<String> {
 	Ok(match e {
@@ -378,6 +378,14 @@ pub fn run_into(ctx: &Ctx, focus: &str, col: &mut Collector) -> Result<()> {
 				let mut e = E::Zoom(Some(*rng.pick(&bounds)).filter(|_| rng.chance(4, 5)), Some(*rng.pick(&bounds)).filter(|_| rng.chance(3, 5)), Box::new(E::Leaf(tiles)));
 				if rng.chance(1, 2) { e = E::Zoom(Some(*rng.pick(&bounds)).filter(|_| rng.chance(4, 5)), None, Box::new(e)); }
 				e }
+			"c09" if i % 5 == 3 => { // geographic boxes that span (almost) the whole Mercator square, tiles in the polar rows of deep levels
+				let zs = [13u8, 14, 15, 16, 17, 20, 24];
+				let tiles: Vec<Tile> = (0..rng.range(3, 9)).map(|k| { let z = *rng.pick(&zs); let m = ((1u64 << z) - 1) as u32;
+					((z, *rng.pick(&[0, 1, m, m / 2, m - 1]), *rng.pick(&[0, 1, 2, m, m - 1, m - 2, m / 2])), 800_000 + i as u64 * 10 + k) }).collect();
+				let lat = *rng.pick(&[85.05, 85.051, 85.0511, 85.05112, 85.0, 84.9, 85.0511287798]);
+				let lat2 = if rng.chance(1, 2) { lat } else { *rng.pick(&[85.05, 85.0511, 80.0]) };
+				let lon = *rng.pick(&[180.0, 179.999, 179.0]);
+				E::BBox([-lon, -lat2, if rng.chance(1, 2) { lon } else { 180.0 }, lat], Box::new(E::Leaf(tiles))) }
 			"c09" => if rng.chance(1, 2) { E::Zoom(Some(rng.range(0, 7) as u8).filter(|_| rng.chance(3, 4)), Some(rng.range(0, 7) as u8).filter(|_| rng.chance(3, 4)), Box::new(inner)) } else { E::BBox(gen_geo(&mut rng), Box::new(inner)) },
 			"c06" => E::Conv(rng.chance(2, 3), rng.chance(2, 3), if rng.chance(1, 2) { Some(gen_req(&mut rng)) } else { None }, Box::new(inner)),
 			_ => inner,
